@@ -47,8 +47,8 @@ def DataFrame_rename_signature : List String := ["self", "**to_from_pairs"]
 
 /-- dataiter/data_frame.py: DataFrame.cbind (sha256 of the function source: 575c3a32e09cfb6e) -/
 def DataFrame_cbind (truth : Term → Bool) : Out :=
-  let found_colnames' : Term := (Term.app "set" []);
-  let data_frames' : Term := (Term.app "Add" [(Term.app "list" [(Term.sym "self")]), (Term.app "list" [(Term.sym "others")])]);
+  let found_colnames' : Term := (Term.app "set()" []);
+  let data_frames' : Term := (Term.app "Add" [(Term.app "list" [(Term.sym "self")]), (Term.app "list()" [(Term.sym "others")])]);
   let eff0 : Term := (Term.app "for" [(Term.app "tuple" [(Term.sym "i"), (Term.sym "data")]), (Term.app "enumerate" [data_frames']), (Term.app "block" [(Term.app "for" [(Term.app "tuple" [(Term.sym "colname"), (Term.sym "column")]), (Term.app ".items" [(Term.sym "data")]), (Term.app "block" [(Term.app "if" [(Term.app "In" [(Term.sym "colname"), found_colnames']), (Term.app "block" [(Term.sym "continue")]), (Term.app "block" [])]), (Term.app ".add" [found_colnames', (Term.sym "colname")]), (Term.app "assign" [(Term.sym "column"), (Term.app "._reconcile_column" [(Term.sym "self"), (Term.sym "column")])]), (Term.app "yield" [(Term.app "tuple" [(Term.sym "colname"), (Term.app ".copy" [(Term.sym "column")])])])])])])]);
   let column' : Term := (Term.app "value-after-loop" [(Term.sym "column"), eff0]);
   Out.fall [eff0]
